@@ -343,6 +343,7 @@ def run(ctx):
               "orc_once_leave (pre-C11 branch) does not store the value before the __sync operation that publishes the state, or unlocks before it")
 
     compiler_state_fresh(db, rep, "D11-COMPILER-STATE-FRESH")
+    d12_no_touch_after_chunk_release(db, rep)
     # ---- D4 -------------------------------------------------------------------
     run_roots = ["orc_program_compile", "orc_program_compile_for_target", "orc_target_get_default", "orc_program_compile_full", "orc_executor_run", "orc_executor_run_backup", "orc_executor_emulate",
                  "orc_code_free", "orc_program_free", "orc_program_reset", "orc_parse_code", "orc_bytecode_from_program"]
@@ -689,4 +690,59 @@ def d9_shared_code_readonly(db, rep):
                   "%s stores into `%s`, reached through a pointer to the shared %s: two executors running the same code at once overwrite each other's "
                   "value there (the second call computes with the first call's parameters)" % ((fn, bad[0][1], bad[0][2]) if bad else ("", "", "")),
                   line=bad[0][0].line if bad else f.line)
+    return n
+
+
+def d12_no_touch_after_chunk_release(db, rep, rule="D12-NO-TOUCH-AFTER-RELEASE"):
+    """"Concurrent compilation and freeing of different programs behave as if serialised."  orc_code_chunk_free puts the chunk back
+    into the shared pool (under the global mutex); from the moment it returns, another thread's compile may have been handed the
+    same bytes and may already have copied its machine code there.  The thread that released the chunk must not touch that memory
+    again: after a call of orc_code_chunk_free (X->chunk) no path may reach a store, memset or memcpy through X->code / X->exec
+    (the chunk's memory).  (Shared with C09: "its bytes stay exactly as emitted until it is freed" - of the NEXT owner.)"""
+    n = 0
+    for f in db.all_functions():
+        rel = [c for c in {c.id: c for c in f.calls()}.values() if c.name == "orc_code_chunk_free" and c.args()]
+        for c in rel:
+            a = access_path(strip_casts(c.args()[0])) or ""
+            if not a.endswith("->chunk"):
+                continue
+            obj = a[:-len("->chunk")]
+            n += 1
+            rep.saw(f)
+            mem = ("%s->code" % obj, "%s->exec" % obj)
+
+            def touches(e):
+                if e.k == "CallExpr" and e.name in ("memset", "memcpy", "memmove", "__builtin_memset", "__builtin_memcpy", "__builtin___memset_chk",
+                                                      "__builtin___memcpy_chk") and e.args():
+                    return (access_path(strip_casts(e.args()[0])) or "") in mem
+                if e.k in ("BinaryOperator", "CompoundAssignOperator") and e.op in ASSIGN_OPS:
+                    l = strip_casts(e.c[0])
+                    if l is not None and l.k in ("ArraySubscriptExpr", "UnaryOperator"):
+                        return any((access_path(y) or "") in mem for y in l.walk())
+                return False
+            # anything reachable after the release
+            pos = f.pos(c)
+            bad = None
+            if pos is not None:
+                seen, stack = set(), []
+                blk = f.blocks[pos[0]]
+                for e in blk.el[pos[1] + 1:]:
+                    if touches(e) and bad is None:
+                        bad = e
+                stack.extend(s_ for s_ in blk.succs if s_ is not None)
+                while stack and bad is None:
+                    b = stack.pop()
+                    if b in seen:
+                        continue
+                    seen.add(b)
+                    for e in f.blocks[b].el:
+                        if touches(e) and bad is None:
+                            bad = e
+                    stack.extend(s_ for s_ in f.blocks[b].succs if s_ is not None)
+            rep.check(bad is None, rule, where(f), "%s@%s" % (f.name, c.line), "the chunk's memory is not touched after the chunk went back to the pool",
+                      "%s writes into `%s` (line %s) after orc_code_chunk_free (line %s) has returned the chunk to the shared pool: another thread's compile may "
+                      "already own those bytes and have copied its machine code there - it is overwritten, outside any lock" %
+                      (f.name, mem[0], bad.line if bad else "?", c.line), line=bad.line if bad else c.line)
+    if n < 1:
+        raise AnalysisBroken("no release of a code object's chunk found")
     return n
